@@ -167,7 +167,7 @@ func runC05(s *kernel.Sim) {
 		s.Violate("R1", "validation-panicked", "the dry-run validation panicked: %s; flow req=%v resp=%v mutations=%v", p, f.req, f.resp, mutations)
 		return
 	}
-	s.Event("validation", fmt.Sprint(verr))
+	s.Event("validation", firstWords(fmt.Sprint(verr), 8))
 	if verr != nil {
 		s.Probe("rejected")
 		s.State("rejected:" + firstWords(verr.Error(), 6))
